@@ -2398,8 +2398,20 @@ fiRawRecordValues(FiSInt num, ...)
 	va_start(argp, num);
 	for (i = rsize = 0; i < num; i++)
 	{
+		FiSInt	size  = va_arg(argp, FiSInt);
+		FiSInt	align = size < (FiSInt) sizeof(FiWord)
+				? size : (FiSInt) sizeof(FiWord);
+
+		/*
+		 * Each field starts on its own boundary, as in a C struct:
+		 * a pointer stored after a byte-sized field must be aligned,
+		 * otherwise the collector does not see it.
+		 */
+		if (align > 1 && rsize % align != 0)
+			rsize += align - rsize % align;
+
 		result[i] = rsize;
-		rsize += va_arg(argp, FiSInt);
+		rsize += size;
 	}
 	va_end(argp);
 
